@@ -20,7 +20,7 @@ CHECKS = {
  'C05': dict(tech='exhaustive enumeration of the configuration product (process lifetimes x open orders x write patterns) on the real stack against per-database map models',
    text='The full product of 2-3 process lifetimes, five open orders of two databases in one process, write patterns, abandoned transactions and mid-life reopen; every database read after every open and write and in a final process; plus every sequential interleaving of transactions and autocommit writes to depth 5 (6) followed by Close, a new process, Open and a full read, twice.', note=seq_note + ' A process boundary is emulated by a clean Close plus re-initialisation of all package-level variables.', ref='C05'),
  'C06': dict(tech='stateless model checking of the implementation: deviation-bounded exhaustive schedule exploration with a linearizability oracle',
-   text='Every schedule with at most 2 (quick) / 3 (thorough, capped at 4 M executions per program) deviations of eleven client programs (autocommit, RU/RC transactions, GC actor, shared keys) over inline.Open..Close, the same programs with the writer preference of sync.RWMutex modelled at one deviation less, and every pair of client threads over an 11-item alphabet (56 generated programs at 1 deviation quick; two initial states, GC actor, 2 deviations and two-against-one items thorough) and every triple over a 5-item alphabet (34 programs, 1 / 2 deviations); each recorded call/return history must be linearizable w.r.t. the sequential model; no deadlock, panic or leaked thread.', note=conc_note, ref='C06'),
+   text='Every schedule with at most 2 (quick) / 3 (thorough, capped at 4 M executions per program) deviations of eleven client programs (autocommit, RU/RC transactions, GC actor, shared keys) over inline.Open..Close, the same programs with the writer preference of sync.RWMutex modelled at one deviation less, three programs with a scheduling point after every Unlock as well (release points), and every pair of client threads over an 11-item alphabet (56 generated programs at 1 deviation quick; two initial states, GC actor, 2 deviations and two-against-one items thorough) and every triple over a 5-item alphabet (34 programs, 1 / 2 deviations); each recorded call/return history must be linearizable w.r.t. the sequential model; no deadlock, panic or leaked thread.', note=conc_note, ref='C06'),
  'C07': dict(tech='stateless model checking of the implementation: deviation-bounded exhaustive schedule exploration of concurrent commits with a linearizability oracle',
    text='Every schedule with at most 2 (quick) / 3 (thorough) deviations of five programs in which snapshot transactions with intersecting write sets (and an autocommit / RC writer) commit concurrently, plus all 36 pairs of committing clients generated from an 8-item alphabet (RR/SER writers with intersecting and disjoint write sets, RC, autocommit and rolled-back writers) at 2 / 3 deviations; the history must be linearizable w.r.t. the model, in which the second committer fails and its writes vanish.', note=conc_note, ref='C07'),
  'C08': dict(tech='stateless model checking of the implementation: deviation-bounded exhaustive schedule exploration of snapshot readers with a linearizability oracle',
@@ -34,7 +34,7 @@ CHECKS = {
  'C14': dict(tech='bounded exhaustive enumeration of fault-free histories with exact quiescence and a walk of the storage roots',
    text='All fault-free histories to the stated depth; epilogue: end open transactions, exact quiescence, one GC pass, quiescence; the roots must hold exactly one content file per readable key with its bytes, directly inside <root>/<uuid>/; variant with Close while work is pending, new process, reopen; plus one transaction issuing n = 1..24 (thorough 64) writes in six shapes under the same disk oracle.', note=seq_note, ref='C14'),
  'C15': dict(tech='stateless model checking of the implementation with the Go race detector as per-execution monitor (scheduler hand-offs hidden, shim primitives annotated with the real happens-before edges)',
-   text='Every schedule with at most 1 (quick) / 2 (thorough) deviations of 32 programs (the C06/C07/C08 programs, first-use, two-root and seeded-state programs, worker-pool and readWriter programs), each execution monitored by the race detector; any report in fs_db code is a violation.', note='Only memory touched by fs_db code and the instrumented glebziz/containers in explored executions; Badger is the in-memory shim, gRPC handlers are not run under the scheduler; sequentially consistent executions only.', ref='C15'),
+   text='Every schedule with at most 1 (quick) / 2 (thorough) deviations of 32 programs (the C06/C07/C08 programs, first-use, two-root and seeded-state programs, worker-pool and readWriter programs), each execution monitored by the race detector, and a release-points pass (a scheduling point after every Unlock) over three transaction programs and the C07 programs; any report in fs_db code is a violation.', note='Only memory touched by fs_db code and the instrumented glebziz/containers in explored executions; Badger is the in-memory shim, gRPC handlers are not run under the scheduler; sequentially consistent executions only.', ref='C15'),
  'C16': dict(tech='stateless model checking of the implementation: deviation-bounded exhaustive schedule exploration of the real worker pool',
    text='All schedules with at most 2 (quick) / 3 (thorough) deviations of 15 closed programs over wpool.New/Run/Send/Sched/Stop with gated jobs (one without bound, one - a Stop racing a deferred Send followed by a second life of the pool - with early timers at no cost): accepted jobs run exactly once at quiescence, Send returns while no worker is free, Stop waits for in-flight jobs, nothing starts after Stop, no panic, deadlock or leaked thread.', note='Virtual time (Send timer fires when nothing else can run, or early as a deviation); interleavings at visible operations; race freedom between them is C15.', ref='C16'),
 }
